@@ -11,6 +11,7 @@ package main
 
 import (
 	"fmt"
+	"go/token"
 	"os"
 	"sort"
 	"strings"
@@ -95,9 +96,13 @@ func f6Key(fn *ssa.Function, o idxOblig, why string) string {
 	return anchorName(fn) + "|" + o.Kind + " " + cc.of(o.X) + "|" + why
 }
 
-func ruleC07R1(c *Ctx) {
-	reach, fns := c.runtimeSet()
-	c.floor("C07.R1", "universe functions reachable from the per-record roots", len(fns), 150)
+var f6Provers = map[*Ctx]*prover{}
+
+// f6: the facts engine shared by the rules of one run, with the declared assumptions verified first
+func (c *Ctx) f6() *prover {
+	if p, ok := f6Provers[c]; ok {
+		return p
+	}
 	pr := newProver(c)
 	// assume-guarantee: the declared struct invariants are assumed for the previous state while they are
 	// verified at every store (induction over the life of the object); a failure withdraws them
@@ -116,6 +121,14 @@ func ruleC07R1(c *Ctx) {
 			break
 		}
 	}
+	f6Provers[c] = pr
+	return pr
+}
+
+func ruleC07R1(c *Ctx) {
+	reach, fns := c.runtimeSet()
+	c.floor("C07.R1", "universe functions reachable from the per-record roots", len(fns), 150)
+	pr := c.f6()
 	res := classifyF6(c, pr, fns)
 	nA, nB, nR := 0, 0, 0
 	usedContracts := map[string]int{}
@@ -182,4 +195,411 @@ func init() {
 			fmt.Printf("RT %s  <- %s\n", anchorName(f), anchorName(reach[f]))
 		}
 	})
+}
+
+// ---------------------------------------------------------------------------
+// Structural companions of R1: each checks the producer side of an assumption the engine or the reviewed
+// table relies on.
+
+func init() {
+	register("C07", "C07.R0", ruleC07R0)
+	register("C07", "C07.R1s", ruleC07R1s)
+	register("C07", "C07.R1g", ruleC07R1g)
+	register("C07", "C07.R1n", ruleC07R1n)
+	register("C07", "C07.R4c", ruleC07R4c)
+}
+
+// R0: nothing recovers from a panic, so every panic reachable per record kills the agent
+func ruleC07R0(c *Ctx) {
+	nBuiltins := 0
+	for fn := range c.P.allFuncs {
+		if fn.Blocks == nil || !strings.HasPrefix(fnPkgPath(fn), modPath) || strings.HasSuffix(fnPkgPath(fn), "/test") {
+			continue
+		}
+		eachInstr(fn, func(in ssa.Instruction) {
+			ci, ok := in.(ssa.CallInstruction)
+			if !ok {
+				return
+			}
+			if b, ok := ci.Common().Value.(*ssa.Builtin); ok {
+				nBuiltins++
+				if b.Name() == "recover" {
+					c.bad("C07.R0", fn, "recover()", in.Pos(), "a recover() exists: the rule set of C07 assumes that no panic is caught and must be re-scoped (which panics are survivable now?)")
+				}
+			}
+		})
+	}
+	c.floor("C07.R0", "builtin calls scanned", nBuiltins, 500)
+	c.ok("C07.R0", nil, "no recover() in the module", 0, "every reachable panic terminates the process: index safety (R1), explicit panics (R2) and label sanitising (R3) are necessary for the property")
+}
+
+func namedConstInt(c *Ctx, pkgRel, name string) int64 {
+	for _, pk := range c.P.prog.AllPackages() {
+		if relPkg(pk.Pkg.Path()) == pkgRel && strings.HasPrefix(pk.Pkg.Path(), modPath) {
+			if nc, ok := pk.Members[name].(*ssa.NamedConst); ok {
+				return nc.Value.Int64()
+			}
+		}
+	}
+	broken("constant %s.%s not found", pkgRel, name)
+	return 0
+}
+
+// R1g: the accept loop starts runConnection only with a client number below MaxClientNumber
+func ruleC07R1g(c *Ctx) {
+	max := namedConstInt(c, "base", "MaxClientNumber")
+	target := c.P.Fn("input/tcplistener.(*tcpLineListener).runConnection")
+	pr := c.f6()
+	n := 0
+	for _, fn := range c.P.universe {
+		for _, site := range callsIn(fn) {
+			if site.Common().StaticCallee() != target {
+				continue
+			}
+			n++
+			arg := site.Common().Args[len(site.Common().Args)-1]
+			ok := pr.prove(fn, site, valT(arg), zeroT(), max-1, nil)
+			c.check(ok, "C07.R1g", fn, "runConnection is started with clientNumber < MaxClientNumber", site.Pos(),
+				"the call is dominated by the rejection of descriptor numbers >= MaxClientNumber",
+				fmt.Sprintf("the client number is not shown to be below %d: ReloadableOrchestrator indexes fixed arrays of that size with it", max))
+		}
+	}
+	c.floor("C07.R1g", "call sites of runConnection", n, 1)
+}
+
+// R1n: newStringExtractor stores a nil char table only when the boundary that delimits the label is not empty
+func ruleC07R1n(c *Ctx) {
+	fn := c.P.Fn("transform/textractspecial.newStringExtractor")
+	posStart := namedConstInt(c, "transform/textractspecial", "extractFromStart")
+	posEnd := namedConstInt(c, "transform/textractspecial", "extractFromEnd")
+	var stTable *ssa.Store
+	stored := map[string]ssa.Value{}
+	eachInstr(fn, func(in ssa.Instruction) {
+		st, ok := in.(*ssa.Store)
+		if !ok {
+			return
+		}
+		if fa, ok := strip(st.Addr).(*ssa.FieldAddr); ok {
+			f := fieldName(fa.X.Type(), fa.Field)
+			switch f {
+			case "transform/textractspecial.stringExtractor.validChars":
+				stTable = st
+			case "transform/textractspecial.stringExtractor.leftBound", "transform/textractspecial.stringExtractor.rightBound", "transform/textractspecial.stringExtractor.position":
+				stored[f[strings.LastIndex(f, ".")+1:]] = strip(st.Val)
+			}
+		}
+	})
+	if stTable == nil || stored["leftBound"] == nil || stored["rightBound"] == nil || stored["position"] == nil {
+		broken("C07.R1n: newStringExtractor no longer stores validChars/leftBound/rightBound/position")
+	}
+	// blocks from which the nil value flows into the store
+	var nilPreds []*ssa.BasicBlock
+	switch v := strip(stTable.Val).(type) {
+	case *ssa.Phi:
+		for i, e := range v.Edges {
+			if k, ok := strip(e).(*ssa.Const); ok && k.IsNil() {
+				nilPreds = append(nilPreds, v.Block().Preds[i])
+			}
+		}
+	case *ssa.Const:
+		if v.IsNil() {
+			nilPreds = append(nilPreds, stTable.Block())
+		}
+	}
+	c.floor("C07.R1n", "paths storing a nil char table", len(nilPreds), 1)
+	type atom struct {
+		what  string
+		truth bool
+	}
+	classify := func(cond ssa.Value) (string, bool) {
+		bo, ok := cond.(*ssa.BinOp)
+		if !ok || bo.Op != token.EQL {
+			return "", false
+		}
+		k, isK := constInt(bo.Y)
+		if !isK {
+			return "", false
+		}
+		if strip(bo.X) == stored["position"] {
+			if k == posStart {
+				return "posStart", true
+			}
+			if k == posEnd {
+				return "posEnd", true
+			}
+		}
+		if cl, ok := strip(bo.X).(*ssa.Call); ok && isBuiltin(cl, "len") && k == 0 {
+			if strip(cl.Call.Args[0]) == stored["rightBound"] {
+				return "rightEmpty", true
+			}
+			if strip(cl.Call.Args[0]) == stored["leftBound"] {
+				return "leftEmpty", true
+			}
+		}
+		return "", false
+	}
+	for _, target := range nilPreds {
+		bad := ""
+		nPaths := 0
+		var walk func(b *ssa.BasicBlock, dec []atom, seen map[*ssa.BasicBlock]bool)
+		walk = func(b *ssa.BasicBlock, dec []atom, seen map[*ssa.BasicBlock]bool) {
+			if bad != "" || seen[b] || nPaths > 5000 {
+				return
+			}
+			if b == target {
+				nPaths++
+				has := func(w string, t bool) bool {
+					for _, a := range dec {
+						if a.what == w && a.truth == t {
+							return true
+						}
+					}
+					return false
+				}
+				okA := has("posStart", false) || has("rightEmpty", false) || has("posEnd", true)
+				okB := has("posEnd", false) || has("leftEmpty", false) || has("posStart", true)
+				if !okA {
+					bad = "position == extractFromStart with an empty right boundary is not excluded"
+				} else if !okB {
+					bad = "position == extractFromEnd with an empty left boundary is not excluded"
+				}
+				return
+			}
+			seen[b] = true
+			defer delete(seen, b)
+			if iff, ok := b.Instrs[len(b.Instrs)-1].(*ssa.If); ok {
+				if w, ok := classify(iff.Cond); ok {
+					walk(b.Succs[0], append(append([]atom{}, dec...), atom{w, true}), seen)
+					walk(b.Succs[1], append(append([]atom{}, dec...), atom{w, false}), seen)
+					return
+				}
+			}
+			for _, s := range b.Succs {
+				walk(s, dec, seen)
+			}
+		}
+		walk(fn.Blocks[0], nil, map[*ssa.BasicBlock]bool{})
+		c.check(bad == "" && nPaths > 0, "C07.R1n", fn, fmt.Sprintf("nil char table stored from block %d only with a delimiting boundary", target.Index), stTable.Pos(),
+			fmt.Sprintf("all %d paths to the nil store exclude the combinations in which extractLabelAtStart/AtEnd index the table without a nil test", nPaths),
+			"a nil char table can be stored although the label would be delimited by the table only: "+bad+" (matchValidCharsFrom* index a nil slice on the first record)")
+	}
+}
+
+// R4c: every LogRewriter implementation honours the result side of the contract the serializer relies on
+func ruleC07R4c(c *Ctx) {
+	pr := c.f6()
+	n := 0
+	for _, fn := range c.P.universe {
+		if fn.Signature.Recv() == nil || fn.Blocks == nil || !pr.implementsRewriter(fn.Signature.Recv().Type()) {
+			continue
+		}
+		switch fn.Name() {
+		case "MaxFieldLength":
+			for _, rv := range returnedValues(fn, 0) {
+				n++
+				c.check(pr.prove(fn, rv.At, zeroT(), valT(rv.Val), 0, nil), "C07.R4c", fn, "MaxFieldLength result >= 0", rv.At.Pos(),
+					"a sum of lengths (and of the next rewriter's result, by the same contract)", "the result can be negative: the serializer's capacity guard then reserves too little")
+			}
+		case "WriteFieldBody":
+			if len(fn.Params) != 4 {
+				continue
+			}
+			for _, rv := range returnedValues(fn, 0) {
+				n++
+				ok := pr.prove(fn, rv.At, zeroT(), valT(rv.Val), 0, nil) && pr.prove(fn, rv.At, valT(rv.Val), lenT(fn.Params[3]), 0, nil)
+				c.check(ok, "C07.R4c", fn, "0 <= WriteFieldBody result <= len(buffer)", rv.At.Pos(),
+					"the result is what copy()/the next rewriter wrote into the given buffer", "the result is not bounded by the buffer it was given: the serializer advances its position by it")
+			}
+		}
+	}
+	c.floor("C07.R4c", "return sites of LogRewriter implementations", n, 8)
+}
+
+// R1s: producers of the schema contract SC1..SC3
+func ruleC07R1s(c *Ctx) {
+	pr := c.f6()
+	// (a) conversions to LogFieldLocator
+	nConv := 0
+	for _, fn := range c.P.universe {
+		eachInstr(fn, func(in ssa.Instruction) {
+			var x ssa.Value
+			switch v := in.(type) {
+			case *ssa.Convert:
+				if typeName(v.Type()) == "base.LogFieldLocator" && typeName(v.X.Type()) != "base.LogFieldLocator" {
+					x = v.X
+				}
+			case *ssa.ChangeType:
+				if typeName(v.Type()) == "base.LogFieldLocator" && typeName(v.X.Type()) != "base.LogFieldLocator" {
+					x = v.X
+				}
+			}
+			if x == nil {
+				return
+			}
+			nConv++
+			// 0 <= x < len(recv.fieldNames)
+			var names ssa.Value
+			eachInstr(fn, func(i2 ssa.Instruction) {
+				if u, ok := i2.(*ssa.UnOp); ok && u.Op == token.MUL {
+					if fa, ok := strip(u.X).(*ssa.FieldAddr); ok && fieldName(fa.X.Type(), fa.Field) == "base.LogSchema.fieldNames" {
+						names = u
+					}
+				}
+			})
+			ok := names != nil && pr.prove(fn, in, zeroT(), valT(x), 0, nil) && pr.prove(fn, in, valT(x), lenT(names), -1, nil)
+			c.check(ok, "C07.R1s", fn, "integer converted to LogFieldLocator is an index of schema.fieldNames", in.Pos(),
+				"0 <= index < len(fieldNames) at the conversion (slices.Index result after the -1 test)",
+				"a locator is made from an integer that is not shown to be a valid field index: every fields[loc] relies on it")
+		})
+	}
+	c.floor("C07.R1s", "conversions to LogFieldLocator", nConv, 1)
+	// (b) uses of the constant MissingFieldLocator (-1) and (c) guards on the containers that may hold it
+	tainted := map[string]bool{}
+	nMissing := 0
+	for _, fn := range c.P.universe {
+		eachInstr(fn, func(in ssa.Instruction) {
+			var ops []*ssa.Value
+			for _, op := range in.Operands(ops) {
+				k, ok := (*op).(*ssa.Const)
+				if !ok || typeName(k.Type()) != "base.LogFieldLocator" || k.Value == nil {
+					continue
+				}
+				nMissing++
+				switch x := in.(type) {
+				case *ssa.BinOp:
+					continue // comparison
+				case *ssa.Return:
+					if isAnchor(fn, "base.(*LogSchema).CreateFieldLocator") {
+						last := x.Results[len(x.Results)-1]
+						if kc, isC := last.(*ssa.Const); !isC || !kc.IsNil() {
+							continue // returned together with an error
+						}
+					}
+				case *ssa.Store:
+					if ia, ok := strip(x.Addr).(*ssa.IndexAddr); ok {
+						root := strip(ia.X)
+						found := false
+						eachInstr(fn, func(i2 ssa.Instruction) {
+							st, ok := i2.(*ssa.Store)
+							if !ok {
+								return
+							}
+							if fa, ok := strip(st.Addr).(*ssa.FieldAddr); ok && strip(st.Val) == root {
+								tainted[fieldName(fa.X.Type(), fa.Field)] = true
+								found = true
+							}
+						})
+						if found {
+							continue
+						}
+					}
+				}
+				c.bad("C07.R1s", fn, "use of MissingFieldLocator", in.Pos(), "the invalid locator (-1) flows somewhere other than a comparison, an error return of CreateFieldLocator or a slice stored in a struct field: the engine assumes locators are valid indexes")
+			}
+		})
+	}
+	c.floor("C07.R1s", "uses of MissingFieldLocator", nMissing, 3)
+	var tf []string
+	for f := range tainted {
+		tf = append(tf, f)
+	}
+	sort.Strings(tf)
+	for _, f := range tf {
+		nLoads := 0
+		for _, fn := range c.P.universe {
+			eachInstr(fn, func(in ssa.Instruction) {
+				u, ok := in.(*ssa.UnOp)
+				if !ok || u.Op != token.MUL {
+					return
+				}
+				ia, ok := strip(u.X).(*ssa.IndexAddr)
+				if !ok || tableKey(ia.X) != "field:"+f {
+					return
+				}
+				nLoads++
+				// every use of the element other than a comparison is only reachable through `elem != -1`
+				for _, ref := range *u.Referrers() {
+					if bo, ok := ref.(*ssa.BinOp); ok && (bo.Op == token.EQL || bo.Op == token.NEQ) {
+						continue
+					}
+					if _, ok := ref.(*ssa.DebugRef); ok {
+						continue
+					}
+					guarded := false
+					for _, r2 := range *u.Referrers() {
+						bo, ok := r2.(*ssa.BinOp)
+						if !ok || (bo.Op != token.EQL && bo.Op != token.NEQ) {
+							continue
+						}
+						if k, ok := bo.Y.(*ssa.Const); !ok || k.Value == nil || k.Int64() != -1 {
+							continue
+						}
+						for _, r3 := range *bo.Referrers() {
+							iff, ok := r3.(*ssa.If)
+							if !ok {
+								continue
+							}
+							edge := 1 // == : the false edge
+							if bo.Op == token.NEQ {
+								edge = 0
+							}
+							if c.onlyViaEdge(fn, ref, iff.Block(), edge) {
+								guarded = true
+							}
+						}
+					}
+					c.check(guarded, "C07.R1s", fn, "element of "+f+" is used only after the MissingFieldLocator test", ref.Pos(),
+						"the use is reachable only through the `!= MissingFieldLocator` edge", "an element that may be MissingFieldLocator (-1) is used as a field index without the test")
+				}
+			})
+		}
+		c.floor("C07.R1s", "element loads of "+f, nLoads, 1)
+	}
+	// (d) who stores LogRecord.Fields
+	nF := 0
+	for _, fn := range c.P.universe {
+		if strings.Contains(fn.Name(), "Test") {
+			continue // test helpers kept in a non-test file (NewTestRecord*, CopyTestRecord): not reachable in production
+		}
+		for _, st := range storesToField(fn, "base.LogRecord.Fields") {
+			nF++
+			s := st
+			lt := lenT(s.Val)
+			if mk, isMake := strip(s.Val).(*ssa.MakeSlice); isMake {
+				lt = valT(mk.Len) // the length operand itself (a parameter: the goal is pushed to the call sites)
+			}
+			ok := pr.prove(fn, s, lt, mfT(), 0, nil) && pr.prove(fn, s, mfT(), lt, 0, nil)
+			c.check(ok, "C07.R1s", fn, "LogRecord.Fields is made with schema.maxFields elements", s.Pos(),
+				"len(stored slice) == GetMaxFields() of the schema", "a record's Fields slice is not shown to have maxFields elements: locators index it without a check")
+		}
+	}
+	c.floor("C07.R1s", "stores to LogRecord.Fields", nF, 1)
+	// (e) NewLogSchema
+	ns := c.P.Fn("base.NewLogSchema")
+	var stNames, stMax *ssa.Store
+	for _, st := range storesToField(ns, "base.LogSchema.fieldNames") {
+		stNames = st
+	}
+	for _, st := range storesToField(ns, "base.LogSchema.maxFields") {
+		stMax = st
+	}
+	if stNames == nil || stMax == nil {
+		broken("C07.R1s: NewLogSchema no longer stores fieldNames/maxFields")
+	}
+	at := stMax
+	if stNames.Block() == stMax.Block() {
+		for _, in := range stMax.Block().Instrs {
+			if in == ssa.Instruction(stNames) {
+				at = stMax
+			}
+			if in == ssa.Instruction(stMax) {
+				break
+			}
+		}
+	}
+	c.check(pr.prove(ns, at, lenT(stNames.Val), valT(stMax.Val), 0, nil), "C07.R1s", ns, "NewLogSchema: len(fieldNames) <= maxFields", at.Pos(),
+		"the constructor rejects maxFields < len(fieldNames)", "a schema with fewer slots than named fields can be created: NF <= MF is assumed by every fields[loc]")
+	for _, f := range []string{"base.LogSchema.fieldNames", "base.LogSchema.maxFields"} {
+		c.check(pr.immutableField[f], "C07.R1s", nil, f+" is assigned only in constructors", 0, "stored only into fresh objects", "the schema is modified after construction")
+	}
 }
